@@ -70,7 +70,9 @@ Proof.
     + apply in_app_or in H. apply in_or_app. destruct H as [H|H]; [left|right].
       * destruct (k =? 0); [destruct H|exact H].
       * destruct ((k =? N - 1) && (1 <? N)); [destruct H|exact H].
-  - exact H.
+  - apply in_app_or in H. apply in_or_app. destruct H as [H|H]; [left|right; exact H].
+    destruct (loc_T go); [destruct H|].
+    destruct (go_min go), (go_max go); try destruct H; exact H.
   - exact H.
 Qed.
 
